@@ -9,9 +9,12 @@ META = {'claimed': True,
                '(C07_wait_immediate, C07_wait_then_read), EOF gives 1 and error -1 without changing the buffer (C07_read_eof_error). Writer: for every history of write/reserve/consume/completion '
                '(size 0 included, every allocation and completion outcome): no fault/assert, no zero-length network_write, the buffers handed to network_write concatenated are a prefix of the '
                'accepted bytes and with the queue all of them while nothing failed; the fail callback fires exactly once iff failed; after failure nothing more is sent and writes return 0 changing '
-               'nothing (C07_writer_prefix_total, C07_writer_failed_is_sticky, C07_wire_is_prefix_of_accepted). KNOWN FINDING F9 (listed): netbuf_read_wait_cancel after a partial arrival loses the '
-               'bytes the cancelled network_read had received; the strict statement is refuted with a witness (C07_reader_cancel_partial_loss_refuted) and the check reports it as KNOWN-FINDING. '
-               "Bound to the C by the correspondence run over the composed model (NetWorld) with a scripted kernel and an independent stream checker on the implementation's log.",
+               'nothing (C07_writer_prefix_total, C07_writer_failed_is_sticky, C07_wire_is_prefix_of_accepted). the queue drains under a non-failing transport and completions are paired with starts '
+               '(C07_writer_drains, C07_writer_completions_paired, C07_wire_is_prefix_composed). Both transport branches of the C (plain socket and context transport) are executed against the one '
+               'model. KNOWN FINDING F15 (listed): bytes received inside a wait that ends with EOF/error are not shown (C07_reader_eof_partial_loss_refuted). KNOWN FINDING F9 (listed): '
+               'netbuf_read_wait_cancel after a partial arrival loses the bytes the cancelled network_read had received; the strict statement is refuted with a witness '
+               '(C07_reader_cancel_partial_loss_refuted) and the check reports it as KNOWN-FINDING. Bound to the C by the correspondence run over the composed model (NetWorld) with a scripted kernel '
+               "and an independent stream checker on the implementation's log.",
  'level_note': 'Trusted: Coq kernel; hand-written models bound by differential execution (ASan, scripted kernel); the transport below is the C06 contract (completed read = n in [min,max] bytes in '
                'its target range, or 0, or -1). Print Assumptions: closed under the global context.',
  'trusted_base': ['scripted kernel harness/wrap_net.c', 'tools/extract/x_net.py'],
